@@ -21,7 +21,8 @@ CLAIM = (
     "_list_required_properties lists exactly the non-optional properties the class itself specifies, and both definition generators store "
     "it; (6) MODELTYPE: a concrete definition pins modelType to a const whenever the class is serialized with a model type, and requires "
     "it unless a parent's definition does; the choice definition offers the class itself and every concrete descendant; (7) FLD: which "
-    "fields of Constraints are consumed."
+    "fields of Constraints are consumed; (8) STACK-ORDER: the passes that in-line the constraints of ancestors and of constrained-primitive "
+    "chains visit parents before children (a child processed first loses the grandparent's constraints)."
 )
 NOTE = (
     "Oracle: base64 text length 4*ceil(n/3). Documented exclusions (by design of the generator, stated in the property): tightenings "
@@ -53,6 +54,12 @@ def run(ctx) -> None:
     check_required(ctx)
     check_modeltype(ctx)
     check_fld(ctx)
+    ctx.rule("STACK-ORDER", "constraints of ancestors / constrained-primitive chains are stacked parents-first (shared with C15)", floor=2)
+    from ..rules import stack
+    for m in ctx.p.modules.values():
+        if m.name.startswith(f"{PKG}.infer_for_schema"):
+            for f in m.functions.values():
+                stack.check_stack_order(ctx, f, "STACK-ORDER")
 
 
 def _source_guard_ok(guards, attr: str) -> Tuple[bool, str]:
